@@ -123,13 +123,12 @@ def r2(ctx):
     if cr:
         c = [bb for bb, t in cr.calls("turmoil::rt::Rt::cancel_tasks")]
         tk = [bb for bb, t in cr.calls(re.compile(r"^std::option::Option::take$")) if "field:turmoil::rt::Rt::handle" in Slicer(ctx.w).atoms(cr, t["args"][0])]
-        te, fe = call_guard_edges(cr, re.compile(r"^std::option::Option::is_some$"))
-        ok = bool(c) and bool(tk) and bool(te) and all(cr.dominated_by_any(x, edges=te) for x in c) and not always_passes(cr, tk)
-        # from the Some edge, cancel_tasks on all paths
-        if ok:
-            ok = not always_passes(cr, c, frm=te[0][1])
-        ctx.inst(R, "Rt::crash:cancels", ok, cr.span, "crash takes the handle and cancels all tasks when software was running" if ok else
-                 "Rt::crash does not always take the handle and cancel the tasks of running software")
+        # nothing of the host survives a crash: the handle is taken and the tasks are cancelled on every path that returns - also when the
+        # main future has already returned (Rt::tick took the handle then) and only tasks it spawned are left, owning sockets
+        ok = bool(c) and bool(tk) and not always_passes(cr, tk) and not always_passes(cr, c)
+        ctx.inst(R, "Rt::crash:cancels", ok, cr.span, "crash takes the handle and cancels all tasks, whether or not the main future is still running" if ok else
+                 "Rt::crash has a path that returns without cancelling the host's tasks (e.g. only when the main future's handle is still there): a crash of a host whose "
+                 "software has returned leaves the tasks it spawned, and the sockets they own, in place - a listener in a spawned accept loop stays bound and connects to it hang")
     bo = ctx.body(R, "turmoil::rt::Rt::bounce")
     if bo:
         c = [bb for bb, t in bo.calls("turmoil::rt::Rt::cancel_tasks")]
